@@ -521,20 +521,18 @@ func c02One(rep *verifkit.Report, vs *vkServer, env *c01Env, texts []string, qna
 			rep.Class("unchanged:no_record_matches")
 		}
 		exp := ans
-		if conf.AAAADisabled {
-			// The statement says "unchanged"; the anchored mechanism
-			// strips IPv6 hints when AAAA is disabled.  Both are accepted
-			// when response filtering does not apply; when it applies the
-			// hints must be gone.
+		if conf.AAAADisabled && applicable {
+			// Response filtering ran over the answer and found nothing: with
+			// AAAA disabled the IPv6 hints of the records it looked at are
+			// gone (anchored mechanism).  When response filtering is NOT
+			// applicable the statement wants the answer unchanged, hints
+			// included.
 			exp = c02StripV6Hints(ans)
 		}
 		got := strings.Join(vkRRStrings(resp.Answer), "\n")
 		ok := got == strings.Join(vkRRStrings(exp), "\n")
-		if !ok && conf.AAAADisabled && !applicable {
-			ok = got == strings.Join(vkRRStrings(ans), "\n")
-			if ok {
-				rep.Unspec("ipv6 hints kept while response filtering is not applicable")
-			}
+		if !applicable && conf.AAAADisabled {
+			rep.Class("unchanged:not_applicable_with_aaaa_disabled")
 		}
 		if !ok || resp.Rcode != dns.RcodeSuccess {
 			rep.Violate("unchanged:answer-altered", "an upstream answer that must be delivered unchanged was altered", witness(map[string]any{"log_entry": entry}))
